@@ -32,7 +32,10 @@ THEOREMS = [f'Gnpy.Chain.{t}' for t in (
     'redesign_eol_counterexample', 'redesign_eol_drift', 'simparams_restored', 'simparams_restored_any_prior',
     'simparams_restored_many', 'simparams_during', 'reload_rejects_dangling')]
 RULE = ('cases from one PRNG: (a) 60 % topologies/configurations of C08 (Raman crash inputs excluded, EOL = 0 in 75 % of '
-        'them) taken through design, a second design of the same input, and 1-3 export(network_to_json)/reload'
+        'them) taken through: a design of the topology under ANOTHER library (same amplifier names and gain ranges, other noise '
+        'figures / p_max), the design, a second design with the same library object, again the other library, a design under '
+        'the real library with every amplifier variety RENAMED (must be equal up to the names), a design under a fresh copy '
+        'of the library, and 1-3 export(network_to_json)/reload'
         '(network_from_json)/redesign rounds; (b) 30 % SimParams cases; (c) 10 % malformed: an exported design from which one line element was deleted while its connections '
         'remain must be rejected on reload with NetworkTopologyError. SimParams cases: a random prior setting (Raman flag/method/order/'
         'resolutions, NLI method in mixed case, tolerances, computed channels) in force while a topology with 0-2 '
@@ -236,6 +239,58 @@ def model_round(case, drv, ch, line_model, sels, pref_impl, pref_total, p0, lo, 
     return drv.ask('c09.design', **args)
 
 
+_L2_DOC = {}
+
+
+def polluting_equipment(case):
+    """ANOTHER equipment library with the same amplifier names, type_defs and gain ranges as the shipped one but different
+    noise figures (the ranking of the std_* amplifiers is reversed), p_max and NF of the other variable-gain models:
+    designing under it in the same process must not influence designs under the real library"""
+    from gnpy.tools.json_io import _equipment_from_json, DEFAULT_EXTRA_CONFIG
+    if 'doc' not in _L2_DOC:
+        doc = nets.eqpt_json()
+        # a re-characterised library: the low gain amplifier is noisier, the medium gain one better, both weaker
+        new = {'std_low_gain': {'nf_min': 9.5, 'nf_max': 14, 'p_max': 22}, 'std_medium_gain': {'nf_min': 5, 'nf_max': 7, 'p_max': 22},
+               'high_power': {'nf_min': 10, 'nf_max': 14}}
+        for e in doc['Edfa']:
+            if e['type_variety'] in new:
+                e.update(new[e['type_variety']])
+        _L2_DOC['doc'] = doc
+    eq = _equipment_from_json(copy.deepcopy(_L2_DOC['doc']), DEFAULT_EXTRA_CONFIG)
+    return G.apply_overrides(eq, case)
+
+
+RENAME = '~r'
+
+
+def renamed_equipment(case):
+    """the real library with every amplifier variety renamed (same objects, same order): a design must not depend on
+    the NAMES of the library entries"""
+    eq = G.equipment_for(case)
+    new = {}
+    for name, amp in eq['Edfa'].items():
+        amp.type_variety = name + RENAME
+        new[name + RENAME] = amp
+    eq['Edfa'] = new
+    return eq
+
+
+def renamed_topology(case):
+    topo = G.topology_json(case)
+    for e in topo['elements']:
+        if e['type'] == 'Edfa' and e.get('type_variety'):
+            e['type_variety'] = e['type_variety'] + RENAME
+    return topo
+
+
+def unrename(j):
+    j = jcopy(j)
+    for e in j['elements']:
+        if e.get('type') == 'Edfa' and isinstance(e.get('type_variety'), str) and e['type_variety'].endswith(RENAME):
+            e['type_variety'] = e['type_variety'][:-len(RENAME)]
+    return j
+
+
 def run_redesign(case, drv):
     from gnpy.core.parameters import SimParams
     from gnpy.core.utils import watt2dbm, dbm2watt
@@ -245,6 +300,13 @@ def run_redesign(case, drv):
     SimParams.set_params({})
     chains = G.all_chains(case)
     sp = case['span']
+    # a design of the same topology under ANOTHER library (same amplifier names, other noise figures / p_max) comes first
+    # in this process: nothing of it may stick
+    eq_x = polluting_equipment(case)
+    try:
+        designed_network(eq_x, network_from_json(copy.deepcopy(G.topology_json(case)), eq_x))
+    except Exception:      # noqa: BLE001 - the other library may be unable to design this topology: irrelevant here
+        pass
     eq, net = _load(case)
     pre_objs, _ = G.chains_of(net, case)
     pre = [[G.record(n) for n in objs] for objs in pre_objs]
@@ -267,6 +329,33 @@ def run_redesign(case, drv):
             res.fail(f'twice: a second design of the same input differs: {d[:3]}')
     except Exception as e:      # noqa: BLE001
         res.fail(f'twice: a second design of the same input raised {err_kind(e)}')
+
+    # ---- another design under the other library in between, then: the same input under the same library with every
+    # amplifier variety RENAMED must give the same design (up to the names): no state keyed by names survives designs
+    eq_x = polluting_equipment(case)
+    try:
+        designed_network(eq_x, network_from_json(copy.deepcopy(G.topology_json(case)), eq_x))
+    except Exception:      # noqa: BLE001
+        pass
+    try:
+        eq_r = renamed_equipment(case)
+        net_r = network_from_json(copy.deepcopy(renamed_topology(case)), eq_r)
+        designed_network(eq_r, net_r)
+        jr = unrename(network_to_json(net_r))
+        if jr != j1:
+            d = json_diffs(j1, jr, tol=0.0)
+            res.fail(f'renamed: the same input designed under the same library with renamed amplifier varieties (after a '
+                     f'design under another library in this process) differs: {d[:3]}')
+        # and once more under a fresh copy of the real library: identical to the first design
+        eq_c = G.equipment_for(case)
+        net_c = network_from_json(copy.deepcopy(G.topology_json(case)), eq_c)
+        designed_network(eq_c, net_c)
+        jc = jcopy(network_to_json(net_c))
+        if jc != j1:
+            d = json_diffs(j1, jc, tol=0.0)
+            res.fail(f'twice: the same input designed again after a design under another library differs: {d[:3]}')
+    except Exception as e:      # noqa: BLE001
+        res.fail(f'renamed: designing the same input under the renamed library raised {err_kind(e)}: {str(e)[:100]}')
 
     si = eq['SI']['default']
     pref_impl = float(watt2dbm(dbm2watt(si.power_dbm)))
